@@ -50,7 +50,7 @@ var allowedStdInit = map[string]bool{
 	"errors": true, "io": true, "io/fs": true, "internal/oserror": true, "math": true, "math/bits": true,
 	"encoding/binary": true, "unicode/utf8": true, "strings": true, "bytes": true, "sort": true, "path": true,
 	"container/list": true, "context": true, "strconv": true, "sync": true, "sync/atomic": true, "time": false,
-	"slices": true, "maps": true, "crypto": true, "crypto/sha256": true, "hash/crc32": true, "cmp": true, "hash": true, "bufio": true,
+	"slices": true, "maps": true, "crypto": true, "crypto/sha256": true, "hash/crc32": true, "os": true, "cmp": true, "hash": true, "bufio": true,
 }
 
 func main() {
